@@ -49,7 +49,7 @@ impl Value {
     where
         T: ser::Serialize,
     {
-        value.serialize(ValueSerializer)
+        value.serialize(ValueSerializer::default())
     }
 
     /// Interpret a `toml::Value` as an instance of type `T`.
@@ -899,9 +899,14 @@ impl IntoDeserializer<'_, crate::de::Error> for Value {
     }
 }
 
-struct ValueSerializer;
+#[derive(Default)]
+struct ValueSerializer<'a> {
+    /// Set when `None` is handed to this very serializer (not to one further down): the one case in
+    /// which `SerializeMap::serialize_value` leaves the entry out instead of reporting the error
+    is_none: Option<&'a mut bool>,
+}
 
-impl ser::Serializer for ValueSerializer {
+impl ser::Serializer for ValueSerializer<'_> {
     type Ok = Value;
     type Error = crate::ser::Error;
 
@@ -1005,7 +1010,7 @@ impl ser::Serializer for ValueSerializer {
     where
         T: ser::Serialize + ?Sized,
     {
-        value.serialize(self)
+        value.serialize(ValueSerializer::default())
     }
 
     fn serialize_newtype_variant<T>(
@@ -1018,13 +1023,16 @@ impl ser::Serializer for ValueSerializer {
     where
         T: ser::Serialize + ?Sized,
     {
-        let value = value.serialize(ValueSerializer)?;
+        let value = value.serialize(ValueSerializer::default())?;
         let mut table = Table::new();
         table.insert(variant.to_owned(), value);
         Ok(table.into())
     }
 
     fn serialize_none(self) -> Result<Value, crate::ser::Error> {
+        if let Some(is_none) = self.is_none {
+            *is_none = true;
+        }
         Err(crate::ser::Error::unsupported_none())
     }
 
@@ -1032,7 +1040,7 @@ impl ser::Serializer for ValueSerializer {
     where
         T: ser::Serialize + ?Sized,
     {
-        value.serialize(self)
+        value.serialize(ValueSerializer::default())
     }
 
     fn serialize_seq(self, len: Option<usize>) -> Result<Self::SerializeSeq, crate::ser::Error> {
@@ -1202,7 +1210,7 @@ impl ser::Serializer for TableSerializer {
     where
         T: ser::Serialize + ?Sized,
     {
-        let value = value.serialize(ValueSerializer)?;
+        let value = value.serialize(ValueSerializer::default())?;
         let mut table = Table::new();
         table.insert(variant.to_owned(), value);
         Ok(table)
@@ -1366,13 +1374,16 @@ impl ser::SerializeMap for SerializeMap {
     {
         let key = self.next_key.take();
         let key = key.expect("serialize_value called before serialize_key");
-        match Value::try_from(value) {
+        let mut is_none = false;
+        match value.serialize(ValueSerializer {
+            is_none: Some(&mut is_none),
+        }) {
             Ok(value) => {
                 self.map.insert(key, value);
             }
             Err(crate::ser::Error {
                 inner: crate::edit::ser::Error::UnsupportedNone,
-            }) => {}
+            }) if is_none => {}
             Err(e) => return Err(e),
         }
         Ok(())
